@@ -18,3 +18,287 @@ package agent
 //@   ensures [generated] !old(s.Storage.ghaskv["key"]) && result1 == nil ==> s.Storage.ghaskv["key"] && s.Storage.gkv["key"][0:64] == hexenc(str(addr(result0.PrivateKey)[:])) && s.Storage.gkv["key"][64:128] == hexenc(str(addr(result0.PublicKey)[:]))
 //@   ensures [others] forall k string :: k != "key" ==> s.Storage.ghaskv[k] == old(s.Storage.ghaskv[k]) && s.Storage.gkv[k] == old(s.Storage.gkv[k])
 //@   modifies ghost(ghaskv), ghost(gkv), ghost(gsetfail)
+//
+// ---- virtual connections of one agent session (property C16) ----
+// Connections is a sequence of connections; a connection is identified by the strings of its local
+// and remote address (addrstr is net.Addr.String as an uninterpreted function).
+//@ spec sameconn(ac *agentConnection, laddr net.Addr, raddr net.Addr) bool = addrstr(ac.Laddr) == addrstr(laddr) && addrstr(ac.Raddr) == addrstr(raddr)
+//
+// Representation invariant: every registered connection exists and has both addresses.
+//@ spec connsOK(c *Connections) bool = forall i int :: 0 <= i && i < len(c.conns) ==> c.conns[i] != nil && c.conns[i].Laddr != nil && c.conns[i].Raddr != nil
+//
+// Add: appended at the end; nothing else changes.
+//@ func (*Connections).Add
+//@   check safety
+//@   requires [inv] connsOK(c) && ac != nil && ac.Laddr != nil && ac.Raddr != nil
+//@   ensures [inv] connsOK(c)
+//@   ensures [appended] len(c.conns) == old(len(c.conns)) + 1 && c.conns[len(c.conns)-1] == ac
+//@   ensures [others-kept] forall i int :: 0 <= i && i < old(len(c.conns)) ==> c.conns[i] == old(c.conns[i])
+//@   modifies c.conns, c.conns[:]
+//
+// Get: the first connection with these addresses, nil when there is none (data for an unknown
+// connection is then dropped by the caller); the table is not changed.
+//@ func (*Connections).Get
+//@   check safety, frame
+//@   requires [inv] connsOK(c) && laddr != nil && raddr != nil
+//@   ensures [found] result != nil ==> sameconn(result, laddr, raddr) && (exists i int :: 0 <= i && i < len(c.conns) && c.conns[i] == result)
+//@   ensures [none] result == nil ==> (forall i int :: 0 <= i && i < len(c.conns) ==> !sameconn(c.conns[i], laddr, raddr))
+//@   modifies nothing
+//@   loop 1: invariant forall i int :: 0 <= i && i <= rangeindex ==> !sameconn(c.conns[i], laddr, raddr)
+//
+// Delete: exactly the first occurrence of ac is removed, the others keep their order ([order-kept] names
+// the loop variable index and is therefore checked at the return inside the loop only).
+//@ func (*Connections).Delete
+//@   option absidx
+//@   check safety
+//@   requires [inv] connsOK(c)
+//@   ensures [inv] connsOK(c)
+//@   ensures [order-kept] index < old(len(c.conns)) ==> old(c.conns[index]) == ac && (forall i int :: 0 <= i && i < index ==> c.conns[i] == old(c.conns[i]) && c.conns[i] != ac) && (forall i int :: index <= i && i < len(c.conns) ==> c.conns[i] == old(c.conns[i+1]))
+//@   ensures [absent-unchanged] (forall i int :: 0 <= i && i < old(len(c.conns)) ==> old(c.conns[i]) != ac) ==> len(c.conns) == old(len(c.conns))
+//@   ensures [removed-one] (exists i int :: 0 <= i && i < old(len(c.conns)) && old(c.conns[i]) == ac) ==> len(c.conns) == old(len(c.conns)) - 1
+//@   modifies c.conns, c.conns[:]
+//@   loop 1: invariant 0 <= index && index <= len(c.conns) && len(c.conns) == old(len(c.conns)) && same(c.conns, old(c.conns))
+//@   loop 1: invariant forall i int :: 0 <= i && i < index ==> c.conns[i] != ac
+//@   loop 1: invariant connsOK(c)
+//
+// ---- one virtual connection: bytes received from the agent and not yet read by the service ----
+// receive: the payload is appended to the buffer, in order, exactly once; a closed connection
+// drops it. Nothing else of the connection changes.
+//@ func (*agentConnection).receive
+//@   check safety
+//@   ensures [closed-drops] old(dc.closed) ==> len(dc.buff) == old(len(dc.buff)) && (forall i int :: 0 <= i && i < len(dc.buff) ==> dc.buff[i] == old(dc.buff[i]))
+//@   ensures [appended-len] !old(dc.closed) ==> len(dc.buff) == old(len(dc.buff)) + len(data)
+//@   ensures [earlier-kept] !old(dc.closed) ==> (forall i int :: 0 <= i && i < old(len(dc.buff)) ==> dc.buff[i] == old(dc.buff[i]))
+//@   ensures [appended] !old(dc.closed) ==> (forall i int :: 0 <= i && i < len(data) ==> dc.buff[old(len(dc.buff))+i] == old(data[i]))
+//@   ensures [identity-kept] dc.Laddr == old(dc.Laddr) && dc.Raddr == old(dc.Raddr) && dc.closed == old(dc.closed)
+//@   modifies dc.buff, dc.buff[:]
+//
+// Read (data available): the service gets a prefix of the buffer, which is removed from it: each
+// byte is delivered in order and exactly once.
+//@ func (*agentConnection).Read
+//@   check safety
+//@   requires [own-buffer] disjoint(b, dc.buff)
+//@   ensures [prefix] old(len(dc.buff)) != 0 ==> result1 == nil && (result0 == len(b) || result0 == old(len(dc.buff))) && result0 <= len(b) && result0 <= old(len(dc.buff))
+//@   ensures [delivered] old(len(dc.buff)) != 0 ==> (forall i int :: 0 <= i && i < result0 ==> b[i] == old(dc.buff[i]))
+//@   ensures [rest-kept] old(len(dc.buff)) != 0 ==> len(dc.buff) == old(len(dc.buff)) - result0 && (forall i int :: 0 <= i && i < len(dc.buff) ==> dc.buff[i] == old(dc.buff[result0+i]))
+//@   modifies dc.buff, b[:]
+//
+// Write: the bytes go to the session's outgoing queue as consecutive data messages, each tagged with
+// this connection's addresses, each carrying a private copy (later changes of b by the service do not
+// reach the agent) of the next at most maxPayloadSize bytes, so that every message fits a frame.
+// sentlen is the total payload length sent: each message starts where the previous one ended (no gap,
+// no overlap), and on success all of b has been sent; on a timeout the count of bytes sent is returned.
+//@ ghost var sentlen int
+//@ func (*agentConnection).Write
+//@   check safety
+//@   physical 0 <= sentlen && sentlen < 1<<49
+//@   onsend-add sentlen: len(val.Payload)
+//@   onsend [tagged] ch == dc.out && val.Laddr == dc.Laddr && val.Raddr == dc.Raddr
+//@   onsend [fits-frame] len(val.Payload) <= 32768
+//@   onsend [next-chunk] sentlen - old(sentlen) + len(val.Payload) <= len(b) && fresh(val.Payload) && (forall i int :: 0 <= i && i < len(val.Payload) ==> val.Payload[i] == b[sentlen - old(sentlen) + i])
+//@   ensures [all-sent] result1 == nil ==> result0 == len(b) && sentlen == old(sentlen) + len(b)
+//@   ensures [timeout-reports-sent] result1 != nil ==> sentlen == old(sentlen) + result0 && result0 <= len(b)
+//@   ensures [identity-kept] dc.Laddr == old(dc.Laddr) && dc.Raddr == old(dc.Raddr) && dc.closed == old(dc.closed) && len(dc.buff) == old(len(dc.buff))
+//@   modifies chansends, sentlen
+//@   loop 1: invariant 0 <= written && written <= len(b) && sentlen == old(sentlen) + written && (written < len(b) || written == 0)
+//@   loop 1: invariant dc.Laddr == old(dc.Laddr) && dc.Raddr == old(dc.Raddr) && dc.closed == old(dc.closed) && len(dc.buff) == old(len(dc.buff)) && dc.out == old(dc.out)
+//
+// Close: the first call sends exactly one end-of-stream message with this connection's addresses and
+// marks the connection closed; later calls do nothing.
+//@ func (*agentConnection).Close
+//@   check safety
+//@   onsend ch == dc.out && val.Laddr == dc.Laddr && val.Raddr == dc.Raddr
+//@   ensures [first] !old(dc.closed) ==> chansends == old(chansends) + 1 && dc.closed
+//@   ensures [again] old(dc.closed) ==> chansends == old(chansends) && dc.closed
+//@   ensures [identity-kept] result == nil && dc.Laddr == old(dc.Laddr) && dc.Raddr == old(dc.Raddr)
+//@   modifies dc.closed, chansends
+//
+//@ func (*agentConnection).LocalAddr
+//@   check safety, frame
+//@   ensures result == dc.Laddr
+//@   modifies nothing
+//@ func (*agentConnection).RemoteAddr
+//@   check safety, frame
+//@   ensures result == dc.Raddr
+//@   modifies nothing
+//
+// ---- message codec (property C16: "every protocol message decodes to what was encoded") ----
+// The encoder is specified against the wire functions put* (what has been written so far, extended
+// by one field), the decoder against the input not yet consumed (ghost din of the buffered reader):
+// u8s/u16s are the one- and two-byte strings of a value, u8v/u16v the values of the first one or two
+// bytes of a string (uninterpreted; u16 is little endian in the third-party protocol package).
+//@ spec putU8(w string, v int) string = concat(w, u8s(v))
+//@ spec putU16(w string, v int) string = concat(w, u16s(v))
+//@ spec putData(w string, s string) string = concat(putU16(w, len(s)), s)
+//@ spec putTCP(w string, a *net.TCPAddr) string = putU16(putData(putU8(w, 6), str(a.IP)), a.Port)
+//@ spec putUDP(w string, a *net.UDPAddr) string = putU16(putData(putU8(w, 17), str(a.IP)), a.Port)
+//@ spec putAddr(w string, a net.Addr) string = ite(typeis(a, *net.TCPAddr), putTCP(w, unbox(a, *net.TCPAddr)), ite(typeis(a, *net.UDPAddr), putUDP(w, unbox(a, *net.UDPAddr)), putU16(putData(w, ""), 0)))
+//@ spec wire(e *Encoder) string = e.Encoder.Writer.wtotal
+//
+//@ func (*Encoder).WriteData
+//@   check safety
+//@   ensures wire(e) == putData(old(wire(e)), str(data))
+//@   modifies e.Encoder.Writer.wtotal, ghost(gbytes)
+//@ func (*Encoder).WriteString
+//@   check safety
+//@   ensures wire(e) == putData(old(wire(e)), s)
+//@   modifies e.Encoder.Writer.wtotal, ghost(gbytes)
+//@ func (*Encoder).WriteAddr
+//@   check safety
+//@   ensures wire(e) == putAddr(old(wire(e)), address)
+//@   modifies e.Encoder.Writer.wtotal, ghost(gbytes)
+//@ func NewEncoder
+//@   check safety
+//@   ensures result != nil && fresh(result) && result.Encoder != nil && result.Encoder.Writer != nil && wire(result) == "" && result.Encoder.Writer.wsink == w
+//@   ensures typeis(w, *bytes.Buffer) ==> result.Encoder.Writer.wbase == unbox(w, *bytes.Buffer).gbytes
+//@   modifies nothing
+//
+// Marshalling: the bytes returned are exactly the fields in protocol order (nothing is left in the
+// encoder's buffer).
+//@ func (Hello).MarshalBinary
+//@   check safety
+//@   ensures [wire] result1 == nil && str(result0) == putAddr(putAddr("", h.Laddr), h.Raddr)
+//@   modifies ghost(gbytes), ghost(wtotal)
+//@ func (EOF).MarshalBinary
+//@   check safety
+//@   ensures [wire] result1 == nil && str(result0) == putAddr(putAddr("", e.Laddr), e.Raddr)
+//@   modifies ghost(gbytes), ghost(wtotal)
+//@ func (ReadWriteTCP).MarshalBinary
+//@   check safety
+//@   ensures [wire] result1 == nil && str(result0) == putData(putAddr(putAddr("", rw.Laddr), rw.Raddr), str(rw.Payload))
+//@   modifies ghost(gbytes), ghost(wtotal)
+//@ func (ReadWriteUDP).MarshalBinary
+//@   check safety
+//@   ensures [wire] result1 == nil && str(result0) == putData(putAddr(putAddr("", rwu.Laddr), rwu.Raddr), str(rwu.Payload))
+//@   modifies ghost(gbytes), ghost(wtotal)
+//@ func (Handshake).MarshalBinary
+//@   check safety
+//@   ensures [wire] result1 == nil && str(result0) == putData(putData(putData(putData(putU16("", hs.ProtocolVersion), hs.Version), hs.ShortCommitID), hs.CommitID), hs.Token)
+//@   modifies ghost(gbytes), ghost(wtotal)
+//@ func (Ping).MarshalBinary
+//@   check safety
+//@   ensures [wire] result1 == nil && len(result0) == 0
+//@   modifies ghost(gbytes)
+//
+// Decoding: din(d) is the input not yet consumed, derr(d) the sticky error of the decoder.
+//@ spec din(d *Decoder) string = d.Decoder.Reader.din
+//@ spec derr(d *Decoder) error = d.Decoder.LastError
+//@ spec dataLen(s string) int = u16v(s)
+//@ spec wfData(s string) bool = len(s) >= 2 && len(s) - 2 >= dataLen(s)
+//@ spec addrLen(s string) int = 5 + u16v(s[1:len(s)])
+//@ spec wfAddr(s string) bool = len(s) >= 3 && len(s) >= addrLen(s)
+//@ spec isTCPOf(a *net.TCPAddr, s string) bool = str(a.IP) == s[3:addrLen(s)-2] && a.Port == u16v(s[addrLen(s)-2:len(s)])
+//@ spec isUDPOf(a *net.UDPAddr, s string) bool = str(a.IP) == s[3:addrLen(s)-2] && a.Port == u16v(s[addrLen(s)-2:len(s)])
+//@ spec isAddrOf(a net.Addr, s string) bool = (u8v(s) == 6 ==> typeis(a, *net.TCPAddr) && isTCPOf(unbox(a, *net.TCPAddr), s)) && (u8v(s) == 17 ==> typeis(a, *net.UDPAddr) && isUDPOf(unbox(a, *net.UDPAddr), s)) && (u8v(s) != 6 && u8v(s) != 17 ==> a == nil)
+//
+//@ func NewDecoder
+//@   check safety
+//@   ensures result != nil && fresh(result) && result.Decoder != nil && result.Decoder.Reader != nil && din(result) == str(data) && derr(result) == nil
+//@   modifies nothing
+//
+// ReadData / ReadString: the next length-prefixed field, complete (the whole field or an error).
+//@ func (*Decoder).ReadData
+//@   check safety
+//@   ensures [error-sticks] old(derr(d)) != nil ==> len(result) == 0 && din(d) == old(din(d)) && derr(d) == old(derr(d))
+//@   ensures [filled] old(derr(d)) == nil && wfData(old(din(d))) ==> derr(d) == nil && len(result) == dataLen(old(din(d))) && str(result) == old(din(d))[2:2+dataLen(old(din(d)))]
+//@   ensures [consumed] old(derr(d)) == nil && wfData(old(din(d))) ==> din(d) == old(din(d))[2+dataLen(old(din(d))):len(old(din(d)))]
+//@   ensures [own] fresh(result)
+//@   modifies ghost(din), d.Decoder.LastError
+//@ func (*Decoder).ReadString
+//@   check safety
+//@   ensures [error-sticks] old(derr(d)) != nil ==> result == "" && din(d) == old(din(d)) && derr(d) == old(derr(d))
+//@   ensures [filled] old(derr(d)) == nil && wfData(old(din(d))) ==> derr(d) == nil && result == old(din(d))[2:2+dataLen(old(din(d)))]
+//@   ensures [consumed] old(derr(d)) == nil && wfData(old(din(d))) ==> din(d) == old(din(d))[2+dataLen(old(din(d))):len(old(din(d)))]
+//@   modifies ghost(din), d.Decoder.LastError
+//
+// ReadAddr: protocol byte, address bytes, port.
+//@ func (*Decoder).ReadAddr
+//@   check safety
+//@   ensures [decoded] old(derr(d)) == nil && wfAddr(old(din(d))) ==> derr(d) == nil && isAddrOf(result, old(din(d)))
+//@   ensures [consumed] old(derr(d)) == nil && wfAddr(old(din(d))) ==> din(d) == old(din(d))[addrLen(old(din(d))):len(old(din(d)))]
+//@   ensures [error-sticks] old(derr(d)) != nil ==> result == nil && din(d) == old(din(d)) && derr(d) == old(derr(d))
+//@   modifies ghost(din), d.Decoder.LastError
+//
+// Unmarshalling: the fields are what the wire holds at their positions (for a well-formed message).
+//@ spec after1(s string) string = s[addrLen(s):len(s)]
+//@ spec wf2(s string) bool = wfAddr(s) && wfAddr(after1(s))
+//@ spec after2(s string) string = after1(s)[addrLen(after1(s)):len(after1(s))]
+//
+//@ func (*Hello).UnmarshalBinary
+//@   check safety
+//@   ensures [local] result == nil && (wf2(str(data)) ==> isAddrOf(h.Laddr, str(data)))
+//@   ensures [remote] wf2(str(data)) ==> isAddrOf(h.Raddr, after1(str(data)))
+//@   modifies h.Laddr, h.Raddr, ghost(din)
+//@ func (*EOF).UnmarshalBinary
+//@   check safety
+//@   ensures [local] result == nil && (wf2(str(data)) ==> isAddrOf(e.Laddr, str(data)))
+//@   ensures [remote] wf2(str(data)) ==> isAddrOf(e.Raddr, after1(str(data)))
+//@   modifies e.Laddr, e.Raddr, ghost(din)
+//@ func (*ReadWriteTCP).UnmarshalBinary
+//@   check safety
+//@   ensures [local] result == nil && (wf2(str(data)) ==> isAddrOf(rw.Laddr, str(data)))
+//@   ensures [remote] wf2(str(data)) ==> isAddrOf(rw.Raddr, after1(str(data)))
+//@   ensures [payload] wf2(str(data)) && wfData(after2(str(data))) ==> str(rw.Payload) == after2(str(data))[2:2+dataLen(after2(str(data)))] && len(rw.Payload) == dataLen(after2(str(data)))
+//@   modifies rw.Laddr, rw.Raddr, rw.Payload, ghost(din)
+//@ func (*ReadWriteUDP).UnmarshalBinary
+//@   check safety
+//@   ensures [local] result == nil && (wf2(str(data)) ==> isAddrOf(rwu.Laddr, str(data)))
+//@   ensures [remote] wf2(str(data)) ==> isAddrOf(rwu.Raddr, after1(str(data)))
+//@   ensures [payload] wf2(str(data)) && wfData(after2(str(data))) ==> str(rwu.Payload) == after2(str(data))[2:2+dataLen(after2(str(data)))] && len(rwu.Payload) == dataLen(after2(str(data)))
+//@   modifies rwu.Laddr, rwu.Raddr, rwu.Payload, ghost(din)
+//@ func (*Handshake).UnmarshalBinary
+//@   check safety
+//@   ensures [version] result == nil && (len(data) >= 2 ==> hs.ProtocolVersion == u16v(str(data)))
+//@   modifies hs.ProtocolVersion, hs.Version, hs.ShortCommitID, hs.CommitID, hs.Token, ghost(din)
+//@ func (*HandshakeResponse).UnmarshalBinary
+//@   check safety
+//@   ensures result == nil
+//@   modifies h.Addresses, h.Addresses[:], ghost(din)
+//@ func (*Ping).UnmarshalBinary
+//@   check safety, frame
+//@   ensures result == nil
+//@   modifies nothing
+//
+// ---- framing: one type byte, a 16-bit little-endian length, the body ----
+// cin / cout are the inbound stream not yet read and everything written (ghosts of net.Conn).
+//@ spec frameLen(s string) int = int(s[1]) | int(s[2])<<8
+//@ spec wfFrame(s string) bool = len(s) >= 3 && len(s) - 3 >= frameLen(s)
+//@ spec knownType(t int) bool = 0 <= t && t <= 6
+//
+// receive: exactly one frame is consumed and the message's unmarshaller gets exactly its body.
+//@ func (*conn2).receive
+//@   check safety, frame
+//@   physical 0 <= c.Conn.consumed && c.Conn.consumed < 1<<50 && !typeis(c.Conn, *Decoder)
+//@   callpre UnmarshalBinary: wfFrame(old(caller.c.Conn.cin)) ==> str(a1) == old(caller.c.Conn.cin)[3:3+frameLen(old(caller.c.Conn.cin))]
+//@   ensures [one-frame] result1 == nil && wfFrame(old(c.Conn.cin)) ==> c.Conn.cin == old(c.Conn.cin)[3+frameLen(old(c.Conn.cin)):len(old(c.Conn.cin))]
+//@   ensures [dispatch] result1 == nil && len(old(c.Conn.cin)) >= 1 ==> knownType(int(old(c.Conn.cin)[0])) && (int(old(c.Conn.cin)[0]) == 0 <==> typeis(result0, *Hello)) && (int(old(c.Conn.cin)[0]) == 1 <==> typeis(result0, *ReadWriteTCP)) && (int(old(c.Conn.cin)[0]) == 4 <==> typeis(result0, *EOF)) && (int(old(c.Conn.cin)[0]) == 6 <==> typeis(result0, *ReadWriteUDP)) && (int(old(c.Conn.cin)[0]) == 5 <==> typeis(result0, *Ping)) && (int(old(c.Conn.cin)[0]) == 2 <==> typeis(result0, *Handshake))
+//@   modifies ghost(cin), ghost(consumed), ghost(din), type(Hello), type(EOF), type(ReadWriteTCP), type(ReadWriteUDP), type(Handshake), type(HandshakeResponse)
+//
+// send: the type byte of the message's dynamic type, the length of its encoding and the encoding, in
+// this order, appended to what was written before (for an encoding that fits the 16-bit length; the
+// producers of outgoing messages keep payloads within maxPayloadSize, see Write). Proved: the total
+// length, the type byte and the length field of what is appended. That the body is appended unchanged
+// and the earlier output is kept are not decided here (they need more string algebra than the engine
+// instantiates; both follow from net.Conn.Write appending its argument).
+//@ spec typecode(o encoding.BinaryMarshaler) int = ite(typeis(o, Hello), 0, ite(typeis(o, ReadWriteTCP), 1, ite(typeis(o, Handshake), 2, ite(typeis(o, HandshakeResponse), 3, ite(typeis(o, EOF), 4, ite(typeis(o, Ping), 5, ite(typeis(o, ReadWriteUDP), 6, 255)))))))
+//@ func (conn2).send
+//@   check safety
+//@   option catlemmas
+//@   ensures [known-types-only] typecode(o) == 255 ==> result != nil && c.Conn.cout == old(c.Conn.cout)
+//@   ensures [frame-len] result == nil && len(marshalled(o)) <= 65535 ==> len(c.Conn.cout) == len(old(c.Conn.cout)) + 3 + len(marshalled(o))
+//@   ensures [frame-type] result == nil ==> int(c.Conn.cout[len(old(c.Conn.cout)):len(old(c.Conn.cout))+1][0]) == typecode(o)
+//@   ensures [frame-length-field] result == nil && len(marshalled(o)) <= 65535 ==> frameLen(c.Conn.cout[len(old(c.Conn.cout)):len(c.Conn.cout)]) == len(marshalled(o))
+//@   modifies ghost(cout), ghost(written)
+//
+// ---- session loop: which connection a message is routed to ----
+// Hello registers a connection with the announced addresses and hands it to the services; a data
+// message reaches exactly the connection found for its addresses (none: dropped) with exactly its
+// payload; an end-of-stream message removes and closes exactly that connection. (The loop runs beside
+// a sender goroutine and deferred clean-up; only the dispatch is decided here.)
+//@ func (*agentListener).serv
+//@   callpre (*Connections).Add: ac != nil && fresh(ac) && ac.Laddr == v.Laddr && ac.Raddr == v.Raddr && ac.out == out && !ac.closed && len(ac.buff) == 0
+//@   callpre (*Connections).Get: laddr == v.Laddr && raddr == v.Raddr
+//@   callpre (*agentConnection).receive: same(data, v.Payload) && sameconn(dc, v.Laddr, v.Raddr)
+//@   callpre (*Connections).Delete: sameconn(ac, v.Laddr, v.Raddr)
+//@   modifies *
+//@   loop 1: invariant connsOK(conns)
